@@ -153,11 +153,11 @@ def run(ctx):
     n = und = tot = 0
     if ctx.quick:
         jobs = list(range(256))
-        it = ctx.pmap(chunk_faces, jobs)
+        it = ctx.pmap_chunks("mc.props.c06", "chunk_faces", jobs)
         extra = cube(17, offset=ctx.phase) + [(i, i, i) for i in range(256)] + [v for _, v in NAMED_LIST]
         name = "format_readback_faces_cube17_grey_named"
     else:
-        it = ctx.pmap(chunk_slab, range(256))
+        it = ctx.pmap_chunks("mc.props.c06", "chunk_slab", list(range(256)))
         extra = []
         name = "format_readback_all_2^24"
     for cnt, viol, u, c in it:
